@@ -1,10 +1,10 @@
 """C08 plan (see lib/plan.py for the format)."""
-from plan import R, D, stages
+from plan import R, D, T, stages
 
 PLAN = dict(
     **stages(
-        quick=[(R, "quick", 16), (D, "small", 16)],
-        thorough=[(R, "thorough", 16), (D, "quick", 16)],
+        quick=[(R, "quick", 16), (D, "small", 16), (T, "small", 16)],
+        thorough=[(R, "thorough", 16), (D, "quick", 16), (T, "quick", 16)],
     ),
     rule=("a case is one entry text handed to Summary::from_str, or one setter assignment. Texts: (a) fault-free "
           "complete texts - all eleven required and any optional variables, each repeated 1-3 times, in canonical, "
